@@ -64,8 +64,10 @@ func (g *GoFakeS3) routeBase(w http.ResponseWriter, r *http.Request) {
 		err = g.listBuckets(w, r)
 
 	} else {
-		http.NotFound(w, r)
-		return
+		// Only "list buckets" exists at the root; answer anything else with
+		// an S3 error document like every other route does, not with
+		// net/http's plain text "404 page not found":
+		err = ErrMethodNotAllowed
 	}
 
 	if err != nil {
